@@ -937,6 +937,86 @@ let codec_step (f : string list) : string =
      | Err e -> err e
      | Ok (nl, ni) -> Printf.sprintf "ok %s %s" (hex_or_empty nl)
                         (match ni with None -> "none" | Some b -> hex_or_empty b))
+  | "mkseg" :: v :: iv :: t :: k :: _base :: ms ->
+    (* a clean segment: log bytes and the derived index bytes *)
+    let v = ver_of v and p = params_of_toks t k in
+    let msgs = List.map parse_full_msg ms in
+    Printf.sprintf "%s %s" (hex_or_empty (enc_log crc32c v msgs))
+      (hex_or_empty (enc_index (ver_of iv) p (derive fnv64a p v msgs)))
+  | "pubseg" :: t :: k :: base :: lhx :: ihx :: ms ->
+    (* open a directory holding this one segment, publish, close: the files afterwards *)
+    let p = params_of_toks t k in
+    let b = bytes_of_hex lhx in
+    (match log_version b (z_of_string base) with
+     | Err e -> err e
+     | Ok v ->
+       let ((recs, _), e) = scan_log crc32c (scan_fuel_of b) v b (hdr_size v) in
+       (match e with
+        | ScanEOF ->
+          let idx = (match opt_hex ihx with
+              | None -> Ok None
+              | Some ib -> (match index_read p (z_of_string base) ib with
+                  | Ok (iv, items) -> Ok (Some (iv, items))
+                  | Err e -> Err e)) in
+          (match idx with
+           | Err e -> err e
+           | Ok ix ->
+             let sg = { sbase = z_of_string base; sver = v; srecs = List.map snd recs; sidx = ix } in
+             let st0 = { segs = [sg]; wcarry = Z0; opened = None; lvirt = false } in
+             let c = { cro = false; ckeys = p.pkeys; ctimes = p.ptimes; cautosync = false;
+                       crollover = z_of_int 100000000; ccheck = false; crecover = false;
+                       cnewver = V2; ckeeprw = false; ceager = false } in
+             (match log_open h st0 c with
+              | Err e -> err e
+              | Ok st1 ->
+                (match log_publish h st1 (List.map parse_msg ms) with
+                 | Err e -> err e
+                 | Ok (st2, _) ->
+                   (match st2.segs with
+                    | [s2] ->
+                      Printf.sprintf "ok %s %s" (hex_or_empty (enc_log crc32c s2.sver s2.srecs))
+                        (match s2.sidx with
+                         | None -> "none"
+                         | Some (iv, items) -> hex_or_empty (enc_index iv p items))
+                    | _ -> "err ModelSegments"))))
+        | _ -> "err LogCorrupted"))
+  | "dirq" :: t :: k :: ro :: n :: rest ->
+    let p = params_of_toks t k in
+    let n = int_of_string n in
+    let rec take_segs i l acc =
+      if i = 0 then (List.rev acc, l)
+      else (match l with
+          | base :: lhx :: ihx :: r -> take_segs (i - 1) r ((base, lhx, ihx) :: acc)
+          | _ -> failwith "dirq segs") in
+    let (sl, rest) = take_segs n rest [] in
+    let queries = (match rest with "--" :: q -> q | _ -> failwith "dirq --") in
+    let bsegs = List.map (fun (base, lhx, ihx) ->
+        let items = (match index_read p (z_of_string base) (bytes_of_hex ihx) with
+            | Ok (_, items) -> items | Err _ -> failwith "dirq: index must be intact") in
+        { bbase = z_of_string base; blog = bytes_of_hex lhx; bitems = items; bmem = true }) sl in
+    (match b_open (ro = "1") bsegs with
+     | Err e -> "openerr " ^ class_name e
+     | Ok l ->
+       let c = crc32c in
+       let one q =
+         (match String.split_on_char ':' q with
+          | ["cons"; off; max] ->
+            (match b_log_consume c l (z_of_string off) (z_of_string max) with
+             | Err e -> err e | Ok (n, ms) -> Printf.sprintf "ok %s%s" (string_of_z n) (fmt_msgs ms))
+          | ["get"; off] ->
+            (match b_log_get c l (z_of_string off) with Err e -> err e | Ok m -> "ok " ^ fmt_msg m)
+          | ["getk"; key] ->
+            if not p.pkeys then "err NoIndex" else
+            (match b_log_get_by_key c fnv64a l (bytes_of_hex key) with Err e -> err e | Ok m -> "ok " ^ fmt_msg m)
+          | ["gett"; ts] ->
+            if not p.ptimes then "err NoIndex" else
+            (match b_log_get_by_time c l (z_of_string ts) with Err e -> err e | Ok m -> "ok " ^ fmt_msg m)
+          | ["consk"; key; off; max] ->
+            if not p.pkeys then "err NoIndex" else
+            (match b_log_consume_by_key c fnv64a l (bytes_of_hex key) (z_of_string off) (z_of_string max) with
+             | Err e -> err e | Ok (n, ms) -> Printf.sprintf "ok %s%s" (string_of_z n) (fmt_msgs ms))
+          | _ -> "err UnknownQuery") in
+       String.concat " ; " (List.map one queries))
   | ["hash"; k] -> string_of_z (fnv64a (bytes_of_hex k))
   | ["crc"; hx] -> string_of_z (crc32c (bytes_of_hex hx))
   | _ -> "err UnknownOp"
@@ -958,9 +1038,55 @@ let run_codec (path : string) =
    with End_of_file -> ());
   close_in ic
 
+
+(* ccheck mode: the C07 checkers of RecoverSpec.v evaluated on the implementation's codec output *)
+let run_ccheck (path : string) =
+  let ic = open_in path in
+  let cur : string list ref = ref [] in
+  let lineno = ref 0 in
+  let nfail = ref 0 and nchk = ref 0 in
+  let fail clause r =
+    incr nfail;
+    Printf.printf "PFAIL case=codec line=%d prop=C07 clause=%s op=%s got=%s\n" !lineno clause
+      (String.concat "_" (List.map (fun t -> if String.length t > 60 then String.sub t 0 60 ^ ".." else t) !cur))
+      (String.concat "_" (List.map (fun t -> if String.length t > 60 then String.sub t 0 60 ^ ".." else t) r)) in
+  (try
+     while true do
+       let line = String.trim (input_line ic) in
+       incr lineno;
+       if line = "" || line.[0] = '#' then ()
+       else if line.[0] = '=' then begin
+         let r = toks (String.sub line 1 (String.length line - 1)) in
+         (match !cur with
+          | ["check"; t; k; base; lhx; ihx] ->
+            incr nchk;
+            let ok = (r = ["ok"]) in
+            if List.mem "Panic" r then fail "check_no_panic" r
+            else if not (check_check crc32c fnv64a (params_of_toks t k) (z_of_string base) (bytes_of_hex lhx) (opt_hex ihx) ok)
+            then fail "check_iff_clean" r
+          | ["recover"; t; k; base; lhx; ihx] ->
+            incr nchk;
+            if List.mem "Panic" r then fail "recover_no_panic" r
+            else begin
+              let out = (match r with
+                  | "ok" :: nl :: ni :: rest ->
+                    if rest <> [] then (fail "recover_leaves_extra_files" r; None)
+                    else Some (bytes_of_hex nl, opt_hex ni)
+                  | _ -> None) in
+              if not (check_recover crc32c fnv64a (params_of_toks t k) (z_of_string base) (bytes_of_hex lhx) (opt_hex ihx) out)
+              then fail "recover_valid_prefix" r
+            end
+          | _ -> ())
+       end else cur := toks line
+     done
+   with End_of_file -> ());
+  close_in ic;
+  Printf.printf "PSUMMARY checked=%d failed=%d\n" !nchk !nfail
+
 let () =
   match Array.to_list Sys.argv with
   | _ :: "hist" :: path :: _ -> run_hist path
   | _ :: "check" :: path :: _ -> run_check path
   | _ :: "codec" :: path :: _ -> run_codec path
+  | _ :: "ccheck" :: path :: _ -> run_ccheck path
   | _ -> prerr_endline "usage: kvmodel hist <file>"; exit 2
